@@ -254,7 +254,8 @@ def _scenario(variant, N, S, R, start, length, rng, p_drop, p_dup, p_timeout, sh
                     # two datagrams reach the socket back to back (a duplicate right behind its original
                     # when there is one): the engine thread finds the second in its very next iteration
                     same = [o for o in vs if o is not d and o["m"] == d["m"]]
-                    d2 = same[0] if same else rng.choice([o for o in vs if o is not d])
+                    rest = [o for o in vs if o is not d]
+                    d2 = same[0] if same else (rng.choice(rest) if shuffle else min(rest, key=lambda x: (x["m"].get("idx", 0))))
                     rig.enqueue(d["m"])
                     rig.deliver(d2["m"])
                 else:
